@@ -128,8 +128,10 @@ func (e *kvElection) checkKeyAndReelect(ctx context.Context) {
 		return
 	}
 
+	// A follower whose watch could not be established has not seen any record
+	// yet (empty LeaderID): the periodic check is then its only source.
 	currentLeaderID := e.LeaderID()
-	if currentLeaderID != "" && currentLeaderID != newLeaderID {
+	if currentLeaderID != newLeaderID {
 		log := e.getLogger()
 		log.Info("leader_changed_periodic_check",
 			append(e.logWithContext(ctx),
